@@ -1442,7 +1442,9 @@ def run(ctx):
             rs = Planted(uniforms=[np.array(us, dtype=float)])
         qguard = Unchanged([("the q argument", q_obj)])
         if rng.random() < 0.25:
-            d = qe.DiscreteRV([1.0])            # then replace the vector through the setter
+            # another vector first (other dtype, often the same length), then the setter
+            first = rng.choice([[1.0], [1] + [0] * (len(q) - 1), np.eye(len(q), dtype=bool)[-1], [1.0 / len(q)] * len(q)])
+            d = qe.DiscreteRV(first)
             d.q = q_obj
             ctx.count("drv:q-setter")
         else:
@@ -1546,12 +1548,33 @@ def run(ctx):
                               nontrivial=len(ul) > 0, tag="draw:" + sc))
     # ---- histories on one DiscreteRV object: draws interleaved with assignments to .q -----------------
     for _ in range(ctx.n(100, 1000)):
+        n_fix = rng.choice([1, 2, 3, 4, 7])
+
         def new_q():
-            n = rng.choice([1, 2, 3, 4, 7])
-            q, _d = gen_row(rng, n, ctx)
-            f = rng.choice(["list", "tuple", "array", "strided-view"])
-            obj = {"list": lambda: list(q), "tuple": lambda: tuple(q), "array": lambda: np.array(q),
-                   "strided-view": lambda: np.repeat(np.array(q), 2)[::2]}[f]()
+            """a probability vector whose value kind, dtype and container are drawn independently of every earlier
+            vector of this object (same length most of the time: that is where a setter can reuse storage)"""
+            n = n_fix if rng.random() < 0.7 else rng.choice([1, 2, 3, 4, 7])
+            kind = rng.choice(["one-hot", "one-hot", "dyadic", "dyadic", "generic"])
+            if kind == "one-hot":
+                q = [0.0] * n
+                q[rng.randrange(n)] = 1.0
+                dt = rng.choice(["int64", "int32", "uint8", "bool", "float64", "float32", "pyint", "pybool", "pyfloat"])
+            elif kind == "dyadic":
+                q, _d = gen_dyadic_row(rng, n, ctx)
+                dt = rng.choice(["float64", "float64", "float32", "pyfloat"])
+            else:
+                q, _d = gen_row(rng, n, ctx)
+                dt = rng.choice(["float64", "pyfloat"])
+            ctx.count("drvhist:q:%s:%s" % (kind, dt))
+            if dt.startswith("py"):
+                vals = [{"pyint": int, "pybool": bool, "pyfloat": float}[dt](x) for x in q]
+                obj = rng.choice([list, tuple])(vals)
+            else:
+                arr = np.array(q).astype(getattr(np, dt.replace("bool", "bool_")))
+                f = rng.choice(["array", "array", "strided-view", "reversed-view", "list-of-scalars"])
+                obj = {"array": lambda: arr, "strided-view": lambda: np.repeat(arr, 2)[::2],
+                       "reversed-view": lambda: np.ascontiguousarray(arr[::-1])[::-1],
+                       "list-of-scalars": lambda: list(arr)}[f]()
             return q, obj
         q, q_obj = new_q()
         q0 = q
